@@ -7,9 +7,15 @@ back-pressure, write completion / failure, lane failure, pruning, stop), the sto
 handed to `NodePersistence`, and the init protocol of a restart (`ValueInit` / `MapInit` → `value_like_init` /
 `map_like_init`).
 
-Quantifiers: every store-id assignment `cfg` (which items are persistent), every sequence of write-task events
-`evs : List PEv` (= every history and every schedule of lane responses, link / unlink / sync answers, write
-completions and failures, store failures, remote removal, lane failure, stop), and every crash point: a crash point
+Lanes and stores are REGISTERED by events of the history (`PEv.addLane` / `PEv.addStore`): in the prologue of
+`write_task` for the items of the initialisation phase (`late = false`) and at any later moment for a lane added
+while the agent runs (`TaskMessageResult::AddLane`, `late = true`); the registration fixes the `store_id` of the
+item's response stream (`laneStoreId`), which is what `persist_response` looks at.
+
+Quantifiers: every store naming `cfg.idFor` and `cfg.hasStore`, every sequence of write-task events
+`evs : List PEv` (= every history and every schedule of registrations — before or after any other event —, lane
+responses, link / unlink / sync answers, write completions and failures, store failures, remote removal, lane
+failure, stop), and every crash point: a crash point
 is a prefix of the merged log (`List.take n`), whose index is the global sequence number shared by store
 operations and delivered frames.
 -/
@@ -21,7 +27,11 @@ open SwimVerif.WT
 
 def preach (cfg : Cfg) (evs : List PEv) : PSt := prun cfg {} evs
 
-theorem reach_inv (cfg : Cfg) (evs : List PEv) : PInv cfg (preach cfg evs) := pinv_run (pinv_init cfg) evs
+theorem reach_inv (cfg : Cfg) (evs : List PEv) : PInv (preach cfg evs) := pinv_run cfg pinv_init evs
+
+/-- The store id of lane `l`'s response stream (`none`: the stream was built with `store_id = None`, or there is no
+such lane). -/
+def sidOfLane (s : PSt) (l : Nat) : Option Nat := alGet s.laneSid l
 
 /-- **Persist before publish.** In the merged log of every run, every event frame delivered to any remote for a
 persistent lane `l` (store id `sid`) is preceded by the store operation that hands exactly the state carried by
@@ -29,20 +39,20 @@ the frame to the store (`put_value` of the same bytes for a value / supply lane,
 for a map lane). -/
 theorem C05_persist_before_publish (cfg : Cfg) (evs : List PEv) (pre post : List Entry) (r l sid : Nat) (b : Body)
     (hlog : (preach cfg evs).log = pre ++ Entry.send r (some l) (.event b) :: post)
-    (hsid : cfg.sid l = some sid) :
+    (hsid : sidOfLane (preach cfg evs) l = some sid) :
     ∃ op, storeOpOf sid b = some op ∧ Entry.store op ∈ pre :=
-  (reach_inv cfg evs).ord pre post r l b hlog sid hsid
+  ((reach_inv cfg evs).ord pre post r l b hlog).2 sid hsid
 
 /-- The same at **every crash point**: cut the log anywhere (after any store operation, after any delivered
 frame); what the remotes have seen by then has been handed to the store before the cut. -/
 theorem C05_persist_before_publish_at_every_cut (cfg : Cfg) (evs : List PEv) (n : Nat)
     (pre post : List Entry) (r l sid : Nat) (b : Body)
     (hlog : (preach cfg evs).log.take n = pre ++ Entry.send r (some l) (.event b) :: post)
-    (hsid : cfg.sid l = some sid) :
+    (hsid : sidOfLane (preach cfg evs) l = some sid) :
     ∃ op, storeOpOf sid b = some op ∧ Entry.store op ∈ pre := by
   have h := (reach_inv cfg evs).ord
   rw [← List.take_append_drop n (preach cfg evs).log] at h
-  exact ordered_prefix h pre post r l b hlog sid hsid
+  exact (ordered_prefix h pre post r l b hlog).2 sid hsid
 
 /-- Nothing is fabricated on the way: whatever event body the composed write task delivers for lane `l` was
 handed to `handle_event` for lane `l` by a lane response (stated with an arbitrary predicate `P` on bodies that
@@ -105,7 +115,8 @@ theorem C05_restart_ignores_other_items {κ : Type} [DecidableEq κ] (ops : List
 /-- **Transient items never reach the store**: every store operation of every run is addressed to the store id
 of an item that has one (`store_id = None` ⇒ `persist_response` writes nothing). -/
 theorem C05_transient_never_stored (cfg : Cfg) (evs : List PEv) (op : SOp Nat)
-    (h : Entry.store op ∈ (preach cfg evs).log) : ∃ item, cfg.sid item = some op.sid :=
+    (h : Entry.store op ∈ (preach cfg evs).log) :
+    ∃ item, alGet (preach cfg evs).laneSid item = some op.sid ∨ alGet (preach cfg evs).storeSid item = some op.sid :=
   (reach_inv cfg evs).sids op h
 
 /-- **Transient items come back at their defaults**, whatever the store holds. -/
@@ -123,7 +134,7 @@ sent for `l` before the cut, the operations handed to the store before the cut s
 restored value is `b` itself or a value handed over after it (never anything older). -/
 theorem C05_never_older_value (cfg : Cfg) (evs : List PEv) (n r l sid : Nat) (b dflt : Bytes)
     (hsent : Entry.send r (some l) (.event (.raw b)) ∈ (preach cfg evs).log.take n)
-    (hsid : cfg.sid l = some sid) :
+    (hsid : sidOfLane (preach cfg evs) l = some sid) :
     ∃ A B, storeOps ((preach cfg evs).log.take n) = A ++ SOp.put sid b :: B ∧
       restoreValue (foldStore (storeOps ((preach cfg evs).log.take n))) (some sid) dflt = (lastPut sid B).getD b := by
   obtain ⟨pre, post, hsplit⟩ := List.append_of_mem hsent
@@ -142,7 +153,7 @@ remote has been sent before the cut, the restored map is the state right after t
 store, followed only by operations handed over later: `fold B (fold (A ++ [op]) ∅)`. -/
 theorem C05_never_older_map (cfg : Cfg) (evs : List PEv) (n r l sid : Nat) (op : MapOp) (k : Nat)
     (hsent : Entry.send r (some l) (.event (.map op)) ∈ (preach cfg evs).log.take n)
-    (hsid : cfg.sid l = some sid) :
+    (hsid : sidOfLane (preach cfg evs) l = some sid) :
     ∃ A B, storeOps ((preach cfg evs).log.take n) = A ++ SOp.map sid (mapOpK op) :: B ∧
       kGet (restoreMap (foldStore (storeOps ((preach cfg evs).log.take n))) (some sid)) k =
         (mapOpsFor sid B).foldl specApply (specMap (mapOpsFor sid A ++ [mapOpK op])) k := by
@@ -167,46 +178,176 @@ theorem C05_store_failure_stops_everything (cfg : Cfg) (s : PSt) (hf : s.failed 
     simp only [prun, List.foldl, this]
     exact ih
 
+/-! ### Lanes registered while the agent runs (`AgentContext::add_lane` → `TaskMessageResult::AddLane`) -/
+
+/-- **Registration fixes the store id.** Whenever a lane is registered — in the prologue over the initial endpoints
+(`late = false`) or by `AddLane` after any history `evs` whatsoever (`late = true`) — it gets the next lane id and
+its response stream is built with exactly `laneStoreId` (the id the store gives its name if it is persistent,
+`None` if it is transient); and that never changes afterwards, whatever happens (`more`). -/
+theorem C05_registration_fixes_store_id (cfg : Cfg) (evs more : List PEv) (late : Bool) (name : Nat) (kind : UKind)
+    (transient rep : Bool) (hlive : (preach cfg evs).failed = false) :
+    (preach cfg (evs ++ [.addLane late name kind transient rep true])).wt.reg.length =
+      (preach cfg evs).wt.reg.length + 1 ∧
+    sidOfLane (preach cfg (evs ++ .addLane late name kind transient rep true :: more)) (preach cfg evs).wt.reg.length =
+      laneStoreId cfg late name kind transient := by
+  have hinv := reach_inv cfg evs
+  have hreg := pstep_addLane (cfg := cfg) hinv hlive late name kind transient rep
+  have h1 : preach cfg (evs ++ [.addLane late name kind transient rep true]) =
+      pstep cfg (preach cfg evs) (.addLane late name kind transient rep true) := by
+    simp [preach, prun, List.foldl_append]
+  have h2 : preach cfg (evs ++ .addLane late name kind transient rep true :: more) =
+      prun cfg (pstep cfg (preach cfg evs) (.addLane late name kind transient rep true)) more := by
+    simp [preach, prun, List.foldl_append]
+  refine ⟨by rw [h1]; exact hreg.1, ?_⟩
+  rw [h2]
+  simp only [sidOfLane]
+  have hlt : (preach cfg evs).wt.reg.length <
+      (pstep cfg (preach cfg evs) (.addLane late name kind transient rep true)).wt.reg.length := by
+    rw [hreg.1]; omega
+  rw [(prun_laneSid cfg more hlt).1]
+  exact hreg.2.1
+
+/-- **A lane added at run time is persistent exactly as one registered during initialisation**: for value and map
+lanes `laneStoreId` does not depend on `late`, and a non-transient one gets the store's id for its name whenever
+there is a store — the same id in every incarnation of the agent, which is what a restart reads back. -/
+theorem C05_late_registration_as_init (cfg : Cfg) (name : Nat) (kind : UKind) (transient : Bool)
+    (hkind : kind ≠ .supply) :
+    laneStoreId cfg true name kind transient = laneStoreId cfg false name kind transient ∧
+    (cfg.hasStore = true → ∀ late, laneStoreId cfg late name kind false = some (cfg.idFor name)) ∧
+    (∀ late, laneStoreId cfg late name kind true = none) := by
+  cases kind <;> simp [laneStoreId] at hkind ⊢ <;> intro h <;> simp [h]
+
+/-- **Persist before publish for a lane registered at ANY point of the history** (in particular after start-up:
+`late = true`, after `evs1`), at every crash cut: every event frame any remote has been sent for the lane before
+the cut is preceded by the store operation handing exactly that state to the store under the id of the lane's
+name. -/
+theorem C05_registered_lane_persist_before_publish (cfg : Cfg) (evs1 evs2 : List PEv) (late : Bool) (name : Nat)
+    (kind : UKind) (rep : Bool) (hstore : cfg.hasStore = true) (hkind : kind ≠ .supply)
+    (hlive : (preach cfg evs1).failed = false) (n : Nat) (pre post : List Entry) (r : Nat) (b : Body)
+    (hlog : (preach cfg (evs1 ++ .addLane late name kind false rep true :: evs2)).log.take n =
+      pre ++ Entry.send r (some (preach cfg evs1).wt.reg.length) (.event b) :: post) :
+    ∃ op, storeOpOf (cfg.idFor name) b = some op ∧ Entry.store op ∈ pre := by
+  have hsid := (C05_registration_fixes_store_id cfg evs1 evs2 late name kind false rep hlive).2
+  rw [(C05_late_registration_as_init cfg name kind false hkind).2.1 hstore late] at hsid
+  exact C05_persist_before_publish_at_every_cut cfg _ n pre post r _ _ b hlog hsid
+
+/-- **Never older for a lane registered at any point, across re-registration** (values): crash anywhere after a
+value `b` of the lane has been sent to a remote; start again against the store as it is at the cut and register
+the lane of the same name again — during initialisation or later (`late'`): it is initialised with `b` or a value
+handed over after `b`. -/
+theorem C05_registered_lane_never_older_value (cfg : Cfg) (evs1 evs2 : List PEv) (late late' : Bool) (name : Nat)
+    (rep : Bool) (hstore : cfg.hasStore = true) (hlive : (preach cfg evs1).failed = false) (n r : Nat)
+    (b dflt : Bytes)
+    (hsent : Entry.send r (some (preach cfg evs1).wt.reg.length) (.event (.raw b)) ∈
+      (preach cfg (evs1 ++ .addLane late name .value false rep true :: evs2)).log.take n) :
+    ∃ A B, storeOps ((preach cfg (evs1 ++ .addLane late name .value false rep true :: evs2)).log.take n) =
+        A ++ SOp.put (cfg.idFor name) b :: B ∧
+      restoreValue (foldStore (storeOps ((preach cfg (evs1 ++ .addLane late name .value false rep true :: evs2)).log.take n)))
+        (laneStoreId cfg late' name .value false) dflt = (lastPut (cfg.idFor name) B).getD b := by
+  have hsid := (C05_registration_fixes_store_id cfg evs1 evs2 late name .value false rep hlive).2
+  have hk : UKind.value ≠ .supply := by decide
+  rw [(C05_late_registration_as_init cfg name .value false hk).2.1 hstore late] at hsid
+  rw [(C05_late_registration_as_init cfg name .value false hk).2.1 hstore late']
+  exact C05_never_older_value cfg _ n r _ _ b dflt hsent hsid
+
+/-- The same for a map lane registered at any point: the re-registered lane is initialised with the state right
+after the published operation, followed only by operations handed over later. -/
+theorem C05_registered_lane_never_older_map (cfg : Cfg) (evs1 evs2 : List PEv) (late late' : Bool) (name : Nat)
+    (rep : Bool) (hstore : cfg.hasStore = true) (hlive : (preach cfg evs1).failed = false) (n r : Nat)
+    (op : MapOp) (k : Nat)
+    (hsent : Entry.send r (some (preach cfg evs1).wt.reg.length) (.event (.map op)) ∈
+      (preach cfg (evs1 ++ .addLane late name .map false rep true :: evs2)).log.take n) :
+    ∃ A B, storeOps ((preach cfg (evs1 ++ .addLane late name .map false rep true :: evs2)).log.take n) =
+        A ++ SOp.map (cfg.idFor name) (mapOpK op) :: B ∧
+      kGet (restoreMap (foldStore (storeOps ((preach cfg (evs1 ++ .addLane late name .map false rep true :: evs2)).log.take n)))
+        (laneStoreId cfg late' name .map false)) k =
+        (mapOpsFor (cfg.idFor name) B).foldl specApply (specMap (mapOpsFor (cfg.idFor name) A ++ [mapOpK op])) k := by
+  have hsid := (C05_registration_fixes_store_id cfg evs1 evs2 late name .map false rep hlive).2
+  have hk : UKind.map ≠ .supply := by decide
+  rw [(C05_late_registration_as_init cfg name .map false hk).2.1 hstore late] at hsid
+  rw [(C05_late_registration_as_init cfg name .map false hk).2.1 hstore late']
+  exact C05_never_older_map cfg _ n r _ _ op k hsent hsid
+
+/-- A lane registered as transient — at start-up or later — never causes a store operation and is never restored:
+its stream has no store id for the rest of the run. -/
+theorem C05_transient_registration_has_no_store_id (cfg : Cfg) (evs more : List PEv) (late : Bool) (name : Nat)
+    (kind : UKind) (rep : Bool) (hlive : (preach cfg evs).failed = false) :
+    sidOfLane (preach cfg (evs ++ .addLane late name kind true rep true :: more)) (preach cfg evs).wt.reg.length = none := by
+  rw [(C05_registration_fixes_store_id cfg evs more late name kind true rep hlive).2]
+  simp [laneStoreId]
+
 /-! ### Non-vacuity: concrete runs -/
 
-/-- lane 0: persistent value lane (store id 7), lane 1: transient, lane 2: persistent map lane (store id 8),
-item 5: a value store (store id 9). -/
-def exCfg : Cfg := { sid := fun i => if i = 0 then some 7 else if i = 2 then some 8 else if i = 5 then some 9 else none }
+/-- The store names item `n` with id `n + 7`. -/
+def exCfg : Cfg := { idFor := fun name => name + 7 }
 
+/-- lane 0: persistent value lane (store id 7), lane 1: transient, lane 2: persistent map lane (store id 9), all
+registered in the prologue, and a value store (item 0 of the stores, store id 12); then, after traffic, lane 3 is
+added WHILE THE AGENT RUNS as a persistent value lane (store id 10) and lane 4 as a transient one. -/
 def exRun : List PEv :=
-  [ .other (.lane 0 false), .other (.lane 1 false), .other (.lane 2 false),
+  [ .addLane false 0 .value false false true, .addLane false 1 .value true false true,
+    .addLane false 2 .map false false true, .addStore 5 true,
     .other (.attach 1), .other (.link 1 0), .other (.done 1 true),
     .resp 0 (.lane none (.value [53])) true,          -- the value lane publishes `5`
     .other (.done 1 true),
     .resp 1 (.lane (some 1) (.value [54])) true,      -- the transient lane answers a sync of remote 1
     .other (.done 1 true), .other (.done 1 true),
-    .resp 5 (.storeValue [57]) true,                  -- the value store is set
+    .resp 0 (.storeValue [57]) true,                  -- the value store is set
     .resp 2 (.lane (some 1) (.map (.upd 3 [49]))) true,
+    .other (.done 1 true), .other (.done 1 true),
+    .addLane true 3 .value false false true,          -- `AgentContext::add_lane` at run time: persistent
+    .addLane true 4 .value true false true,           -- … and a transient one
+    .other (.link 1 3), .other (.done 1 true),
+    .resp 3 (.lane none (.value [52])) true,          -- the late lane publishes `4`
+    .other (.done 1 true),
+    .resp 4 (.lane (some 1) (.value [56])) true,      -- the late transient lane answers a sync
     .other (.done 1 true), .other (.done 1 true) ]
 
-/-- The log of the run: each published state of a persistent lane is preceded by its store operation, the
-transient lane's value is sent without any store operation, the store item is stored and never sent. -/
+/-- The log of the run: each published state of a persistent lane — registered at start-up (0, 2) or at run time
+(3) — is preceded by its store operation, the transient lanes' values (1, and 4 registered at run time) are sent
+without any store operation, the store item is stored and never sent. -/
 example : (preach exCfg exRun).log =
     [ .send 1 (some 0) .linked,
       .store (.put 7 [53]), .send 1 (some 0) (.event (.raw [53])),
       .send 1 (some 1) .linked, .send 1 (some 1) (.event (.raw [54])),
-      .store (.put 9 [57]),
-      .store (.map 8 (.upd 3 [49])), .send 1 (some 2) .linked, .send 1 (some 2) (.event (.map (.upd 3 [49]))) ] := by
+      .store (.put 12 [57]),
+      .store (.map 9 (.upd 3 [49])), .send 1 (some 2) .linked, .send 1 (some 2) (.event (.map (.upd 3 [49]))),
+      .send 1 (some 3) .linked,
+      .store (.put 10 [52]), .send 1 (some 3) (.event (.raw [52])),
+      .send 1 (some 4) .linked, .send 1 (some 4) (.event (.raw [56])) ] ∧
+    (preach exCfg exRun).laneSid = [(0, 7), (2, 9), (3, 10)] ∧ (preach exCfg exRun).storeSid = [(0, 12)] := by
   decide
 
-/-- Restart after that run: the value lane holds `5`, the map lane `{3 ↦ 1}`, the store `9`; a crash after the
-first store operation (cut at 2) already restores `5`. -/
+/-- Restart after that run: the value lane holds `5`, the map lane `{3 ↦ 1}`, the store `9`, the lane that was
+added at run time `4` — whether it is re-registered at start-up or again at run time; a crash after the first
+store operation (cut at 2) already restores `5`, a crash right after the late lane's store operation (cut at 11,
+before its frame) already restores `4`, one step earlier its default. -/
 example : restoreValue (preach exCfg exRun).store (some 7) [48] = [53] ∧
-    restoreMap (preach exCfg exRun).store (some 8) = [(3, [49])] ∧
-    restoreValue (preach exCfg exRun).store (some 9) [48] = [57] ∧
+    restoreMap (preach exCfg exRun).store (some 9) = [(3, [49])] ∧
+    restoreValue (preach exCfg exRun).store (some 12) [48] = [57] ∧
+    restoreValue (preach exCfg exRun).store (laneStoreId exCfg false 3 .value false) [48] = [52] ∧
+    restoreValue (preach exCfg exRun).store (laneStoreId exCfg true 3 .value false) [48] = [52] ∧
+    restoreValue (preach exCfg exRun).store (laneStoreId exCfg true 4 .value true) [48] = [48] ∧
     restoreValue (foldStore (storeOps ((preach exCfg exRun).log.take 2))) (some 7) [48] = [53] ∧
-    restoreValue (foldStore (storeOps ((preach exCfg exRun).log.take 1))) (some 7) [48] = [48] := by
+    restoreValue (foldStore (storeOps ((preach exCfg exRun).log.take 1))) (some 7) [48] = [48] ∧
+    restoreValue (foldStore (storeOps ((preach exCfg exRun).log.take 11))) (some 10) [48] = [52] ∧
+    restoreValue (foldStore (storeOps ((preach exCfg exRun).log.take 10))) (some 10) [48] = [48] := by
   decide
 
-/-- A store failure: the response is neither stored nor published, and the task is dead. -/
-example : (preach exCfg (exRun.take 6 ++ [.resp 0 (.lane none (.value [53])) false, .other (.done 1 true)])).log =
+/-- A store failure: the response is neither stored nor published, and the task is dead (later registrations do
+nothing either); a failing `store_id` at a run-time registration kills the task as well. -/
+example : (preach exCfg (exRun.take 7 ++ [.resp 0 (.lane none (.value [53])) false, .other (.done 1 true)])).log =
     [ .send 1 (some 0) .linked ] ∧
-    (preach exCfg (exRun.take 6 ++ [.resp 0 (.lane none (.value [53])) false])).failed = true := by
+    (preach exCfg (exRun.take 7 ++ [.resp 0 (.lane none (.value [53])) false])).failed = true ∧
+    (preach exCfg (exRun.take 7 ++ [.resp 0 (.lane none (.value [53])) false,
+      .addLane true 3 .value false false true])).wt.reg.length = 3 ∧
+    (preach exCfg (exRun.take 7 ++ [.addLane true 3 .value false false false])).failed = true := by
+  decide
+
+/-- Without a store nothing gets a store id; a supply lane gets one only when registered at start-up (its events
+are then `put`, but a supply lane has no state that is restored). -/
+example : laneStoreId { idFor := id, hasStore := false } true 3 .value false = none ∧
+    laneStoreId exCfg false 3 .supply false = some 10 ∧ laneStoreId exCfg true 3 .supply false = none := by
   decide
 
 /-- Map restore is exact: update, overwrite, remove, clear, update — only the entries implied remain. -/
